@@ -15,7 +15,7 @@ from ..rules import norm, ncallee
 META = {
     "level": "other",
     "technique": "comparator truth tables over the 3 orderings (typed HIR) + must-pass-through on MIR + sibling key-function comparison",
-    "claim": "Decides the ordering invariant and its use for every mutator and every path: insertion predicates are strict, sorts stable+descending, no reordering Vec op, map rebuilt first-wins after every mutation, one key function, verify_base/verify_patched dominate apply_patch's success and compare against the right digests, no patch dropped on error. Does not replay histories. Also: a search index into the archive list is used before any other mutation of the list (stale-index ordering). Wave 6: every read lookup of the name map also asks the archives that outrank the listed one for the file itself. Wave 7: no return at all — error exits included — between a mutation of the archive list and the map rebuild.",
+    "claim": "Decides the ordering invariant and its use for every mutator and every path: insertion predicates are strict, sorts stable+descending, no reordering Vec op, map rebuilt first-wins after every mutation, one key function, verify_base/verify_patched dominate apply_patch's success and compare against the right digests, no patch dropped on error. Does not replay histories. Also: a search index into the archive list is used before any other mutation of the list (stale-index ordering). Wave 6: every read lookup of the name map also asks the archives that outrank the listed one for the file itself. Wave 7: no return at all — error exits included — between a mutation of the archive list and the map rebuild. Wave 8: the predicate of the archive search is implied by holding the file (boolean formula over its atoms).",
     "note": "Trusted: Vec::insert/remove/position and slice::sort_by (stable) semantics, HashMap entry().or_insert semantics, MD5 crate. The comparator evaluator understands <,<=,>,>=,==,!=,!,&&,||,cmp/partial_cmp/reverse/is_lt.. and Reverse(); anything else is unarmed and trips the floor.",
     "assumptions": ["Archive::list/list_all enumerate the archive's names (C01)", "priority is compared only through the inspected comparators"],
     "explanation": "All functions of patch_chain.rs that touch the ordered archive list, the map builder, the four key-normalisation sites, apply_patch and the two digest verifiers.",
